@@ -14,7 +14,7 @@ the peripheral host for a key, so the harness emulates the LE Long Term Key Requ
 LE Enable Encryption command of the central and compares the two keys.
 
 Harness trust base: TABLE_2_8/reference_method (own transcription of the specification), the
-UserDelegate user model, FaultFilter, LtkEmulation and the FIFO/hold replacement of Tap._forward.
+UserDelegate user model, FaultFilter, LtkEmulation and the encryption-start hold in front of Tap._forward.
 """
 
 from __future__ import annotations
@@ -449,44 +449,25 @@ def _held_by_encryption_start(packet: bytes) -> bool:
     return packet[0] == 0x04 and packet[1] in (0x08, 0x30, 0x59)
 
 
-def make_fifo(tap) -> None:
-    """Replaces tap._forward.
+def add_encryption_hold(tap) -> None:
+    """Adds tap.hold() / tap.release() in front of the (FIFO) Tap._forward.
 
-    1. Work-around for vlib.world.Tap: two packets of one direction that get the same deliver_at are
-       scheduled with two call_at() of equal time, and asyncio's timer heap does not keep ties in FIFO
-       order (an ACL packet could overtake the Encryption Change event in front of it). Here every timer
-       delivers the *oldest* waiting packet of its direction.
-    2. tap.hold(): while the emulated LE Long Term Key Request is unanswered, Encryption Change events and
-       ACL data towards the host wait (the virtual controller reports encryption at once; a real one
-       finishes the procedure only after the peripheral host's reply). tap.release() lets them go.
+    While the emulated LE Long Term Key Request is unanswered, Encryption Change events and ACL data
+    towards the host wait (the virtual controller reports encryption at once; a real one finishes the
+    encryption start procedure only after the peripheral host's reply); once something is held,
+    everything behind it waits too, so the order is preserved. release() lets them go, in order.
     """
     import collections
 
-    queues = {world.H2C: collections.deque(), world.C2H: collections.deque()}
+    inner = tap._forward
     held = collections.deque()
     state = {'hold': False}
 
-    def pump(direction):
-        if queues[direction]:
-            tap._deliver(direction, queues[direction].popleft())
-
-    def schedule(direction, packet):
-        now = tap.loop.time()
-        d = next(tap._delays[direction]) * tap.unit
-        when = max(tap._last[direction], now + d)
-        tap._last[direction] = when
-        queues[direction].append(packet)
-        if when <= now:
-            tap.loop.call_soon(pump, direction)
-        else:
-            tap.loop.call_at(when, pump, direction)
-
     def forward(direction, packet):
         if direction == world.C2H and state['hold'] and (held or _held_by_encryption_start(packet)):
-            # once something is held, everything behind it waits too (order-preserving)
             held.append(packet)
             return
-        schedule(direction, packet)
+        inner(direction, packet)
 
     def hold():
         state['hold'] = True
@@ -494,7 +475,7 @@ def make_fifo(tap) -> None:
     def release():
         state['hold'] = False
         while held:
-            schedule(world.C2H, held.popleft())
+            inner(world.C2H, held.popleft())
 
     tap._forward = forward
     tap.hold = hold
@@ -659,7 +640,7 @@ def _run_pair_case(ctx, case, loop, digest_out) -> None:
     async def setup():
         w = world.World(2, delays=[case['delays_c'], case['delays_p']])
         for n in w.nodes:
-            make_fifo(n.tap)
+            add_encryption_hold(n.tap)
         await w.power_on()
         conn_c, conn_p = await w.connect_le(0, 1)
         shared = {
